@@ -26,7 +26,7 @@ evaluate the single pair itself otherwise) and return the resulting profile toge
 from __future__ import annotations
 
 import ast
-from typing import Dict, List, Optional, Tuple
+from typing import Dict, List, Optional, Set, Tuple
 
 from . import canon as C
 from .canon import Env
@@ -255,9 +255,12 @@ def _len_atom(root: str) -> tuple:
     return C.canon_expr(ast.parse(f"len({root})", mode='eval').body, Env())
 
 
-def _check_sum(contribs, conds, roots: List[str], inside_helper: bool):
-    """-> (verdict, text) with verdict in 'ok' | 'violation' | 'inconclusive'"""
+def _check_sum(contribs, conds, roots: List[str], inside_helper: bool, self_name: str = None, splitting=frozenset()):
+    """-> (verdict, text) with verdict in 'ok' | 'violation' | 'inconclusive'.  `splitting`: the recursive helpers all of
+    whose own recursive calls receive strict parts of their lists - handing a whole list to such a helper (another one
+    than the current) is progress, because that helper splits it."""
     per_root: Dict[str, List[tuple]] = {}
+    whole_to: Dict[str, Set[str]] = {}
     for c in contribs:
         if c[0] == 'badleaf':
             return 'violation', f"`{c[1][:90]}`: {c[2]}"
@@ -266,6 +269,8 @@ def _check_sum(contribs, conds, roots: List[str], inside_helper: bool):
         elif c[0] == 'rec':
             for (root, lo, hi) in c[2]:
                 per_root.setdefault(root, []).append(('slice', lo, hi))
+                if lo is None and hi is None:
+                    whole_to.setdefault(root, set()).add(c[1])
     for r in per_root:
         if r not in roots:
             return 'inconclusive', f"contribution from `{r}`, which is not one of the pair lists {roots}"
@@ -277,7 +282,7 @@ def _check_sum(contribs, conds, roots: List[str], inside_helper: bool):
         if not items:
             return 'violation', f"the pairs of `{r}` do not contribute to the returned profile"
         if items == [('slice', None, None)]:
-            if inside_helper:
+            if inside_helper and not (whole_to.get(r) and all(c_ != self_name and c_ in splitting for c_ in whole_to[r])):
                 return 'violation', f"`{r}` is handed on unsplit: the recursion makes no progress"
             continue
         if many in condset:
@@ -328,16 +333,49 @@ def r_pair_sum(ctx, rule: str = 'R06.2', rule_count: str = 'R06.3') -> List[Ob]:
         return obs
     trains, pairfn, kw = params[0], params[1], gp.node.args.kwarg.arg
     nested = {n.name: n for n in gp.node.body if isinstance(n, ast.FunctionDef)}
-    recursive = {name: n for name, n in nested.items()
-                 if any(isinstance(x, ast.Call) and isinstance(x.func, ast.Name) and x.func.id == name for x in ast.walk(n))}
+    # recursive helpers: the nested functions that can reach themselves through calls of nested functions (a helper that
+    # calls itself, or two helpers that call each other - `summed(pairs)` halving and handing both halves to `combine(a, b)`,
+    # which calls `summed` on each)
+    calls_ = {name: {x.func.id for x in ast.walk(n) if isinstance(x, ast.Call) and isinstance(x.func, ast.Name) and x.func.id in nested}
+              for name, n in nested.items()}
+
+    def _reaches(a_, b_, seen_=None):
+        seen_ = seen_ or set()
+        for c_ in calls_.get(a_, ()):
+            if c_ == b_:
+                return True
+            if c_ not in seen_:
+                seen_.add(c_)
+                if _reaches(c_, b_, seen_):
+                    return True
+        return False
+    recursive = {name: n for name, n in nested.items() if _reaches(name, name)}
     plain_helpers = {name: n for name, n in nested.items() if name not in recursive}
     t_h = "_generic_profile_multi: the recursive helper returns the sum of the pair profiles of all pairs of its lists, each exactly once"
+    evaluated = {}
+    for name, node in recursive.items():
+        try:
+            evaluated[name] = _Eval(node, recursive, trains, pairfn, kw, plain_helpers).run([a.arg for a in node.args.args])
+        except _Undecided as e:
+            evaluated[name] = e
+    splitting = set()
+    for name, evr_ in evaluated.items():
+        if isinstance(evr_, _Undecided):
+            continue
+        strict = True
+        for val_, conds_, _st in evr_.results:
+            if not _consistent(conds_) or not (isinstance(val_, tuple) and val_[0] == 'sum'):
+                continue
+            for c_ in val_[1]:
+                if c_[0] == 'rec' and any(lo_ is None and hi_ is None for (_r, lo_, hi_) in c_[2]):
+                    strict = False
+        if strict:
+            splitting.add(name)
     for name, node in recursive.items():
         roots = [a.arg for a in node.args.args]
-        try:
-            evr = _Eval(node, recursive, trains, pairfn, kw, plain_helpers).run(roots)
-        except _Undecided as e:
-            obs.append(inconclusive(rule, f"{name}: every path of the recursive helper can be evaluated", gp.loc(node), str(e), construct=f"{fn}.{name}"))
+        evr = evaluated[name]
+        if isinstance(evr, _Undecided):
+            obs.append(inconclusive(rule, f"{name}: every path of the recursive helper can be evaluated", gp.loc(node), str(evr), construct=f"{fn}.{name}"))
             continue
         n_paths = 0
         for val, conds, st in evr.results:
@@ -349,7 +387,7 @@ def r_pair_sum(ctx, rule: str = 'R06.2', rule_count: str = 'R06.3') -> List[Ob]:
                 obs.append(violation(rule, t_h, where, key=f"{fn}.{name}::returns-no-sum",
                                      detail=f"`{ast.unparse(st)}` does not return a profile built from the pair profiles"))
                 continue
-            verdict, text = _check_sum(val[1], conds, roots, True)
+            verdict, text = _check_sum(val[1], conds, roots, True, name, frozenset(splitting))
             cstr = f"{fn}.{name}::path::{'&'.join(sorted(C.show(c) for c in conds if c[0] not in ('opaque', 'opaque-not')))}"
             if verdict == 'ok':
                 obs.append(ok(rule, t_h, where, construct=cstr, detail=_contrib_text(val[1])))
